@@ -25,6 +25,10 @@ EDITS = {
  'osc-float-suffix': [('dasp_signal/src/lib.rs', '0.395 * (n0 + n1)', '0.395f64 * (n0 + n1)')],
  'osc-hex-prime': [('dasp_signal/src/lib.rs', 'const PRIME_1: u64 = 15_731;', 'const PRIME_1: u64 = 0x3D73;')],
  'osc-inline-attr': [('dasp_signal/src/lib.rs', 'fn noise_1(seed: u64) -> f64 {', '#[inline]\n        fn noise_1(seed: u64) -> f64 {')],
+ 'osc-rename-temp-saw-order': [('dasp_signal/src/lib.rs', 'phase * -2.0 + 1.0', '1.0_f64 - 2.0 * phase'),
+                               ('dasp_signal/src/lib.rs', 'let x = (seed << 13) ^ seed;\n            1.0 - (x\n                .wrapping_mul(\n                    x.wrapping_mul(x)', 'let mixed = seed ^ (seed << 13u32);\n            1.0 - (mixed\n                .wrapping_mul(\n                    mixed.wrapping_mul(mixed)')],
+ 'osc-tau-and-wrapped-rename': [('dasp_signal/src/lib.rs', 'const PI_2: f64 = core::f64::consts::PI * 2.0;', 'const PI_2: f64 = core::f64::consts::TAU;'),
+                                ('dasp_signal/src/lib.rs', 'let phase = self.next;\n        self.next = (self.next + self.step.step()) % rem;\n        phase', 'let current = self.next;\n        let advanced = current + self.step.step();\n        self.next = advanced % rem;\n        current')],
  'osc-comment': [('dasp_signal/src/lib.rs', 'let x = (seed << 13) ^ seed;', 'let x = (seed << 13) ^ seed; /* scramble */')],
  'sample-table-comment': [('dasp_sample/src/lib.rs', 'impl_sample! {', 'impl_sample! { /* table */', 1)],
 }
@@ -36,6 +40,11 @@ REJECT = {
             f32::NAN
         }''', '''        if x < 0.0 { return f32::NAN; }
         f32::from_bits((x.to_bits() + 0x3f80_0000) >> 1)''')],
+ 'osc-returns-new-phase': [('dasp_signal/src/lib.rs', 'self.next = (self.next + self.step.step()) % rem;\n        phase', 'self.next = (self.next + self.step.step()) % rem;\n        self.next')],
+ 'osc-no-wrap': [('dasp_signal/src/lib.rs', 'self.next = (self.next + self.step.step()) % rem;', 'self.next = self.next + self.step.step();')],
+ 'osc-simplex-corner': [('dasp_signal/src/lib.rs', 'let x1 = x0 - 1.0;', 'let x1 = x0 + 1.0;')],
+ 'osc-simplex-square-once': [('dasp_signal/src/lib.rs', 't1 *= t1;', 't1 *= t0;')],
+ 'osc-noise-add-for-mul': [('dasp_signal/src/lib.rs', 'x.wrapping_mul(x)\n', 'x.wrapping_add(x)\n')],
  'ops-guard-strict': [('dasp_sample/src/ops.rs', 'if x >= 0.0 {\n            f32::from_bits', 'if x > 0.0 {\n            f32::from_bits')],
 }
 def run(cmd, env=None):
